@@ -132,6 +132,61 @@ def deep_realize(x):
     return _ch_deep(x)
 
 
+def peek(x):
+    """One satisfying value of every symbolic atom in x on the current path, read from a
+    solver model WITHOUT adding a decision to the path tree (unlike deep_realize, which makes
+    'realize' nodes that are never exhausted for inputs the path does not pin down)."""
+    if not HAVE_CH:
+        return x
+    with NoTracing():
+        sp = space()
+        if sp is None:
+            return x
+        model = None
+        try:
+            if str(sp.solver.check()) == 'sat':
+                model = sp.solver.model()
+        except Exception:
+            model = None
+
+        def ev(e):
+            if model is None:
+                return '<symbolic>'
+            try:
+                m = model.eval(e, model_completion=True)
+                if z3.is_int_value(m):
+                    return m.as_long()
+                if z3.is_true(m):
+                    return True
+                if z3.is_false(m):
+                    return False
+                if z3.is_string_value(m):
+                    return m.as_string()
+                if z3.is_rational_value(m):
+                    return float(m.numerator_as_long()) / float(m.denominator_as_long())
+                return str(m)[:60]
+            except Exception:
+                return '<symbolic>'
+
+        def rec(v, depth=0):
+            t = type(v)
+            if t in _CONCRETE_ATOMS:
+                return v
+            if depth > 6:
+                return '<...>'
+            if t is dict:
+                return {k: rec(w, depth + 1) for k, w in v.items()}
+            if t is list or t is tuple:
+                return [rec(w, depth + 1) for w in v]
+            if isinstance(v, SymbolicValue):
+                e = getattr(v, 'var', None)
+                if e is not None and isinstance(e, z3.ExprRef):
+                    return ev(e)
+                return '<symbolic %s>' % t.__name__
+            return '<%s>' % t.__name__
+        return rec(x)
+
+
 def b_and(a, b):
     """Non-forking conjunction where possible."""
     with NoTracing():
